@@ -129,6 +129,22 @@ def asyncWrites (ds : List Delivery) (h : Heap) : List (Nat × Nat) → Heap
 /-- returned error: the failures of all consumers, in call order (`multierr.Append`) -/
 def errorsOf (ds : List Delivery) (fails : Nat → Bool) : List Nat := (ds.map (·.consumer)).filter fails
 
+
+/-! ## order-independent summary of one fan-out call
+
+The graph hands the consumers of a fan-out over in graph-iteration order, which a test cannot fix; what is observable at the
+consumers and does not depend on that order: the read-only flag of the object each consumer is handed (closed form `seenRO`,
+proved equal to the operational model in `C06_seen_ro`) and the number of mutating consumers that are handed the original
+(`origMut`, closed form in `C06_origMut`). -/
+
+/-- read-only flag of the object consumer `c` is handed, at its call -/
+def seenRO (caps : List Bool) (inputRO : Bool) (c : Nat) : Bool :=
+  caps[c]? == some false && (inputRO || decide ((readonlyIdx caps).length > 1))
+
+/-- number of mutating consumers that are handed the caller's original -/
+def origMut (caps : List Bool) (inputRO : Bool) : Nat :=
+  ((mutDeliveries (lastGetsOrig caps inputRO) (mutableIdx caps) 0).filter (fun d => decide (d.obj = .orig))).length
+
 /-! ## pipeline level -/
 
 /-- capabilities node: `fanOutNode.Capabilities().MutatesData || any processor mutates` -/
